@@ -135,10 +135,30 @@ func c03Impl(in []int64) []int64 {
 		case 3:
 			out = append(out, int64(r.Len()))
 		case 4:
-			var l []int64
-			it := r.Iter()
-			for k := 0; it.Next() && k < 1<<23; k++ {
-				l = append(l, int64(it.Value()))
+			// two iterators of the same bitmap advanced in lockstep, and a third one drained completely while they are
+			// parked (a nested walk): every live iterator enumerates the members on its own
+			var l, l2 []int64
+			it, it2 := r.Iter(), r.Iter()
+			for k := 0; k < 1<<23; k++ {
+				n1 := it.Next()
+				if n1 {
+					l = append(l, int64(it.Value()))
+				}
+				if k == 1 || k == 4097 {
+					it3 := r.Iter()
+					for j := 0; it3.Next() && j < 1<<23; j++ {
+					}
+				}
+				n2 := it2.Next()
+				if n2 {
+					l2 = append(l2, int64(it2.Value()))
+				}
+				if !n1 && !n2 {
+					break
+				}
+			}
+			if (i/c03W)%2 == 1 {
+				l = l2
 			}
 			out = append(out, PutList(l)...)
 		case 5:
@@ -501,5 +521,5 @@ func c03Describe(in []int64) string {
 func init() {
 	Register(&Prop{ID: "C03", Pure: true, Num: 3, SpecMode: "equal", Gen: c03Gen, Impl: c03Impl,
 		Shrink: ShrinkOps(0, c03W), Describe: c03Describe,
-		Rule: "operation sequences on a zero-value RoaringBitmap: (1) short random sequences of Add/Remove/Contains/Len/Iter/Range/All/Buckets over 1-3 buckets with boundary lows; (2) exact fills of 4095..4098 values in ascending, descending and permuted order, drained to one value, emptied, re-created; (3) random scripts of AddRun/RemoveRun/single ops/observations over 1-3 buckets so that buckets cross the 4096 threshold in both directions, become empty and are re-created. Every Add/Remove/Contains result, Len, the bucket count and the full Iter / Range / All sequences (with early stop) are compared with the model and with the set-of-N specification. distinct = distinct case; non-trivial = at least 3 operations of 2 kinds (1), always (2), some run of >= 4097 values into one bucket (3)"})
+		Rule: "operation sequences on a zero-value RoaringBitmap: (1) short random sequences of Add/Remove/Contains/Len/Iter (always two iterators in lockstep plus a nested third one)/Range/All/Buckets over 1-3 buckets with boundary lows; (2) exact fills of 4095..4098 values in ascending, descending and permuted order, drained to one value, emptied, re-created; (3) random scripts of AddRun/RemoveRun/single ops/observations over 1-3 buckets so that buckets cross the 4096 threshold in both directions, become empty and are re-created. Every Add/Remove/Contains result, Len, the bucket count and the full Iter / Range / All sequences (with early stop) are compared with the model and with the set-of-N specification. distinct = distinct case; non-trivial = at least 3 operations of 2 kinds (1), always (2), some run of >= 4097 values into one bucket (3)"})
 }
